@@ -63,41 +63,40 @@ def run(cfg):
         R.instance(rid, c, loc)
         if not ok:
             R.violation(rid, c, loc, msg)
-    # R1 C++
+    # R1 C++: the predicate is folded through its real body (constant propagation) for every year of the supported range
+    # and every century year around it - whatever its form (one expression, a chain of early returns)
+    import calendar
     f = lib.fn('ace_time::LocalDate::isLeapYear')
-    rets = [s for s in walk_stmts(f.body) if s.k == 'return']
-    sx = SymExec(fold_global=lib.global_value)
-    form = sx.cond(rets[0].a[0], {}) if len(rets) == 1 else None
-    ok, why = False, 'not a single boolean expression'
-    if form is not None:
-        tbl = leap_table(form, f.params[0][0], 'c')
-        bad = [(a, b, c_) for a, b, c_, v in tbl if v != bool((a and not b) or c_)]
-        ok, why = not bad, 'wrong for (4|y, 100|y, 400|y) = %s' % bad
-    ob('R1', f.name, f.loc, ok, why)
-    # R1 Python
+    years = sorted(set(range(1872, 2129)) | {1600, 1700, 1800, 2200, 2300, 2400})
+    ev0 = CEval(lib)
+    bad = []
+    try:
+        for y in years:
+            if bool(ev0.call(f, None, (y,))) != calendar.isleap(y):
+                bad.append(y)
+    except Exception as ex:
+        raise AnalysisError('%s: isLeapYear() cannot be folded (%s)' % (f.loc, ex))
+    ob('R1', f.name, f.loc, not bad, 'isLeapYear() differs from the Gregorian rule (divisible by 4, not by 100 unless by 400) for the years %s%s' % (bad[:6], ' ...' if len(bad) > 6 else ''))
+    # R1 Python: _days_in_month(year, month) is interpreted (E-SEQ) on every month of the same years
+    from .aeval import AEval, Raised
     tr = py.load(cfg, 'tools/tzdb/transformer.py')
     pf = tr.fn('_days_in_month')
     R.analysed['python_modules'] = [tr.rel]
-    leap_expr = None
-    days_tbl = None
-    for s in walk_stmts(pf.body):
-        if s.k == 'assign' and s.a[0].k == 'var' and s.a[0].a[0] == 'is_leap':
-            leap_expr = s.a[1]
-        if s.k == 'assign' and s.a[0].k == 'var' and s.a[1].k == 'init' and s.a[1].a[0] == 'list':
-            vals = [x.a[0] for x in s.a[1].a[1] if x.k == 'const']
-            if len(vals) == 12:
-                days_tbl = vals
-    ok, why = False, 'no is_leap expression found'
-    if leap_expr is not None:
-        form = SymExec(lang='py').cond(leap_expr, {})
-        tbl = leap_table(form, pf.params[0], 'py')
-        bad = [(a, b, c_) for a, b, c_, v in tbl if v != bool((a and not b) or c_)]
-        ok, why = not bad, 'wrong for (4|y, 100|y, 400|y) = %s' % bad
-    ob('R1', 'tzdb.transformer._days_in_month:is_leap', pf.loc, ok, why)
+    bad_leap, bad_len = [], []
+    for y in years:
+        for mth in range(1, 13):
+            try:
+                v = AEval(module=tr).call_function('_days_in_month', [y, mth])
+            except Raised as r_:
+                v = 'raises %s' % r_.what
+            want = calendar.monthrange(y, mth)[1]
+            if v != want:
+                (bad_leap if mth == 2 and v in (28, 29) else bad_len).append('%04d-%02d -> %s (calendar: %d)' % (y, mth, v, want))
+    ob('R1', 'tzdb.transformer._days_in_month:is_leap', pf.loc, not bad_leap, 'February has the wrong length in %d years, e.g. %s' % (len(bad_leap), '; '.join(bad_leap[:3])))
     # R2 tables
     dim = lib.array_values('ace_time::LocalDate::sDaysInMonth')
     ob('R2', 'LocalDate::sDaysInMonth', 'src/ace_time/LocalDate.cpp', dim == GREG_DAYS, 'month lengths are %r' % dim)
-    ob('R2', 'tzdb.transformer._days_in_month:DAYS_IN_MONTH', pf.loc, days_tbl == GREG_DAYS, 'Python month lengths are %r' % days_tbl)
+    ob('R2', 'tzdb.transformer._days_in_month:DAYS_IN_MONTH', pf.loc, not bad_len, 'Python month lengths differ from the calendar in %d months, e.g. %s' % (len(bad_len), '; '.join(bad_len[:3])))
     dow = lib.array_values('ace_time::LocalDate::sDayOfWeek')
     bad = []
     if len(dow) == 12:
@@ -120,13 +119,16 @@ def run(cfg):
     ob('R2', 'LocalDate::dayOfWeek@2000-01-01', g.loc, v == 6, 'the epoch date folds to weekday %r, expected 6 (Saturday)' % v)
     # daysInMonth uses month-1 and adds one for a leap February
     h = lib.fn('ace_time::LocalDate::daysInMonth')
-    s = SymExec(fold_global=lib.global_value).run(h.name, h.body, {})
-    okp = False
-    for gd, kind, res, eff in s.paths:
-        if kind == 'return' and res is not None:
-            txt = poly_key_str(res)
-            okp = 'isLeapYear' in txt and 'sDaysInMonth' in txt
-    ob('R2', h.name, h.loc, okp, 'daysInMonth() does not combine sDaysInMonth[month-1] with the leap February')
+    badm = []
+    try:
+        for y in (1900, 2000, 2001, 2004, 2100):
+            for mth in range(1, 13):
+                v = ev.call(h, None, (y, mth))
+                if v != calendar.monthrange(y, mth)[1]:
+                    badm.append('%04d-%02d -> %r' % (y, mth, v))
+    except Exception as e:
+        raise AnalysisError('%s: daysInMonth() cannot be folded (%s)' % (h.loc, e))
+    ob('R2', h.name, h.loc, not badm, 'daysInMonth() does not give the calendar month length (table entry month-1, 29 for a leap February): %s' % '; '.join(badm[:4]))
     onedays(R, lib, ob)
     localtime_pairing(R, lib, ob)
     floor_rule(R, lib, ob)
@@ -237,25 +239,21 @@ def julian_rule(R, lib, ob):
 def year_range_rule(R, lib, ob):
     """isYearValid(y) holds exactly for the years whose offset from 2000 fits the stored int8 without being the error
     sentinel: kEpochYear + kMinYearTiny .. kEpochYear + kMaxYearTiny = 1873 .. 2127 (the domain of the property)."""
-    from .gnf import arith_assign, eval_formula
     R.rule('R7', 'isYearValid(year) is true exactly for 1873..2127', floor=1)
     f = lib.fn('ace_time::LocalDate::isYearValid')
-    rets = [s for s in walk_stmts(f.body) if s.k == 'return']
-    form = SymExec(fold_global=lib.global_value).cond(rets[0].a[0], {}) if len(rets) == 1 else None
-    if form is None:
-        ob('R7', f.name, f.loc, False, 'not a single boolean expression')
-        return
     lo = lib.const('ace_time::LocalDate::kEpochYear') + lib.const('ace_time::LocalDate::kMinYearTiny')
     hi = lib.const('ace_time::LocalDate::kEpochYear') + lib.const('ace_time::LocalDate::kMaxYearTiny')
     bad = []
-    for y in range(-32768, 32768):
-        try:
-            v = eval_formula(form, arith_assign({f.params[0][0]: y}))
-        except (KeyError, TypeError):
-            ob('R7', f.name, f.loc, False, 'not a closed arithmetic formula in the year')
-            return
-        if bool(v) != (lo <= y <= hi):
-            bad.append(y)
+    ev = CEval(lib)
+    # the predicate is folded through its body for every 16-bit year (quick tier: the years within 300 of the range and a
+    # stride over the rest)
+    ys = range(-32768, 32768) if R.cfg.tier == 'thorough' else sorted(set(range(1500, 2500)) | set(range(-32768, 32768, 97)) | {-32768, 32767})
+    try:
+        for y in ys:
+            if bool(ev.call(f, None, (y,))) != (lo <= y <= hi):
+                bad.append(y)
+    except Exception as ex:
+        raise AnalysisError('%s: isYearValid() cannot be folded (%s)' % (f.loc, ex))
     ob('R7', f.name, f.loc, not bad and (lo, hi) == (1873, 2127),
        'isYearValid() differs from %d <= year <= %d for the years %s%s' % (lo, hi, bad[:4], ' ...' if len(bad) > 4 else '') if bad else 'the constants give the range %d..%d, not 1873..2127' % (lo, hi))
 
